@@ -24,7 +24,8 @@ import (
 
 func init() {
 	fw.Register(&fw.Prop{
-		ID: "C20",
+		ID:                  "C20",
+		DeadlockIsViolation: true, // the calls of this property are synchronous functions of their inputs: a call blocked for good inside the library is a violation
 		Rule: "bit-sliced states (2 x 729 words): uniform random words, all-zero, all-one, a single bit, a single word, every lane a valid trit state, lanes with the fourth code (0,0), lane-permuted copies (permuting lanes must commute with the permutation), states captured from real sponge use. Each state goes through the build-selected transform (assembly in the default build) on plain arrays, through the portable transform, through the build-selected transform with all four buffers inside guard-page arenas flush against the upper and then the lower guard (stray access = fault with the address as witness; canaries in the RW slack), and through a per-lane model: 81 rounds of the round function on 2-bit (l,h) codes with the 364/-365 walk, built from the boolean s-box formula and self-tested against the Curl-P truth table. All results must agree on all 2 x 729 words; concurrent: both permutations called from 8 goroutines at once on their own buffers must give the model's results; digests of all results must be equal in the default and purego builds. " +
 			"Non-trivial: distinct states other than all-zero / all-one.",
 		Assumptions: []string{"the routine has no data-dependent branch or address (loop counters are immediates), so one fenced execution per placement observes every access it can make", "the fence sees accesses within 1 MiB of a buffer", "amd64 only", "per-lane model in harness/prop/c20 (self-tested against the Curl-P truth table and the single-lane model of oracle/curlp)"},
